@@ -481,7 +481,11 @@ def op_send(M, ch, tr, st, rng, s, other, kind, buffer_reuse, closed_loop):
     else:
         s.Fm[:, s.last] = s.Fm[:, s.last] + f
         new_last = s.last
-    if buffer_reuse:
+    if stored and i > 0 and ch.flip(1, 2, "send_view_of_force_record"):
+        # replay with the solver's own (documented) force record: a VIEW of ts._force
+        arg = s.ts._force[:, i]
+        st.fault("sent_view_of_force_record")
+    elif buffer_reuse:
         s.buf[:] = f
         arg = s.buf
         st.fault("buffer_reuse")
@@ -495,7 +499,7 @@ def op_send(M, ch, tr, st, rng, s, other, kind, buffer_reuse, closed_loop):
     tr.ev("force", s.id, i, f)
     with _Sut("gen.send", session=s.id, op=s.ops[-1], ops=s.ops[-8:], solver=where):
         s.gen.send((i, arg))
-    if buffer_reuse:
+    if buffer_reuse and arg is s.buf:
         s.buf[:] = np.nan  # the sender reuses its memory
     # fault accounting
     if kind == "jump_back":
@@ -773,5 +777,5 @@ EXPECTED_FAULTS = [
     "redo_same_force", "redo_new_force", "jump_back_1", "jump_back_far", "addon", "addon_then_advance", "addon_then_redo",
     "redo_then_advance", "addon_order0", "buffer_reuse", "closed_loop_force", "two_sessions_interleaved", "nt_1", "rf_only",
     "rb_only", "static_ic", "complex_coefficients", "f2x_probe", "addon_twice", "instance_reused", "same_instance_tsolve",
-    "same_instance_fsolve", "long_session", "force_int", "resend_stored_force", "deep_run", "f2x_phi_buffer_reused", "F0_buffer_reused",
+    "same_instance_fsolve", "long_session", "force_int", "resend_stored_force", "deep_run", "f2x_phi_buffer_reused", "F0_buffer_reused", "sent_view_of_force_record",
 ]
